@@ -9,6 +9,7 @@ For a class C: M = methods decorated with `cached_function` (per-object function
 """
 import ast
 
+from .match import FnText
 from ..model import AnalysisError, norm, walk_no_nested
 from ..cfg import build_cfg, node_exprs
 from ..astutil import short, call_name
@@ -188,7 +189,7 @@ def check_cached_function_key(ctx, rule='A8k'):
     if w is None:
         raise AnalysisError('cached_function.wrapper vanished')
     ctx.touch(w)
-    src = ' '.join(norm(s) for s in w.body)
+    src = FnText(ctx, w)
     keyassign = [s for s in walk_fn(w) if isinstance(s, ast.Assign) and norm(s.targets[0]) == 'cache_key']
     from ..flow import Slice
     from ..cfg import build_cfg as bc
